@@ -1,9 +1,10 @@
 SPECIFICATION SSpec
 CONSTANTS
-  NL = 3
-  NE = 4
+  NL = 2
+  NE = 3
   AbsBug = "none"
   SigBug = "none"
+  NB = 2
 VIEW SView
-INVARIANTS TypeOK LawUnregisterOnce LawCalledAreLive LawCallExplained
+INVARIANTS TypeOK LawUnregisterOnce LawOwnership LawCalledAreLive LawCallExplained
 CHECK_DEADLOCK FALSE
